@@ -85,3 +85,19 @@ contract(S + "StepRegistry.add_step_definition", props=["C11"],
                  "forall(lambda k: implies(0 <= k < old(len(%s)), not matches_text(old(%s[k]), step_text))))"
                  % ((DEFS,) * 12),
          })
+
+# -- "the very same definition": same pattern at the same *real* source location --------------------------------
+contract(S + "StepRegistry.same_step_definition", props=["C11"],
+         params={"step": "ref:Matcher", "other_pattern": "any", "other_location": "ref:FileLocation"},
+         result="bool", pure=True,
+         ensures={
+             "the-same-only-with-an-equal-pattern": "implies(result, step.pattern == other_pattern)",
+             "the-same-only-at-an-equal-location": "implies(result, loc_of(step) == other_location)",
+             "a-location-in-the-pseudo-file-<string>-identifies-no-function":
+                 "implies(other_location.filename == '<string>', not result)",
+             "equal-pattern-at-an-equal-real-location-is-the-same-definition":
+                 "implies(step.pattern == other_pattern and loc_of(step) == other_location and "
+                 "other_location.filename != '<string>', result)",
+         },
+         doc="code compiled from strings (exec, REPL, generated step libraries) all lives in '<string>': an equal (file, line) "
+             "there does not make two functions the very same definition, so such a re-registration must reach the ambiguity check")
